@@ -197,3 +197,43 @@ def aligned_store_key(ctx: Ctx) -> None:
                     ctx.bad(R, f, call, f'the value is reindexed to `{t[:60]}`, not to the receiver\'s own labels at `[{ktxt}]`, and then stored by position: cells receive the '
                             'values of other labels (a set-operation result is sorted, the receiver need not be)', key=key)
     ctx.require(n >= 2, 'positional stores of label-aligned values')
+
+
+# confirmed exceptions, one reason each
+REBUILD_NAME_EXCEPTIONS = {
+    '_ufunc_set': 'binary set operation: the result derives from two indices and is deliberately unnamed (the equal-operands shortcut returns self, name included)',
+}
+
+
+def index_rebuild_carries_name(ctx: Ctx) -> None:
+    R = 'G.index-rebuild-carries-name'
+    ctx.rule(R, 'inferred convention, confirmed and frozen (Engler et al.): an index rebuilt from an existing one through that one\'s own class '
+             '(`<E>.__class__._from_type_blocks(...)`, `<E>.__class__.from_labels(...)`) is a derivation of E and carries E\'s name — the call passes `name=` with '
+             'E\'s name (9 of the 13 sites did; one is a set operation (exception table), the 3 others lost the name of the index in astype / insert_before / insert_after)', floor=9)
+    prog = ctx.prog
+    n = 0
+    for f in prog.all_funcs():
+        if isinstance(f.node, ast.Lambda) or f.module.short not in ('index_hierarchy', 'index', 'index_base', 'index_datetime', 'frame', 'series', 'index_level'):
+            continue
+        for c in walk_local(f.node):
+            if not (isinstance(c, ast.Call) and isinstance(c.func, ast.Attribute) and c.func.attr in ('_from_type_blocks', 'from_labels')
+                    and isinstance(c.func.value, ast.Attribute) and c.func.value.attr == '__class__'):
+                continue
+            e = c.func.value.value
+            etxt = norm(e)
+            n += 1
+            key = f'{f.qualname.split(".", 1)[1]}:{etxt}.__class__.{c.func.attr}'
+            if f.name in REBUILD_NAME_EXCEPTIONS:
+                ctx.ok(R, f, c, f'exception table: {REBUILD_NAME_EXCEPTIONS[f.name]}', key=key)
+                continue
+            nm = kwarg(c, 'name')
+            if nm is None:
+                ctx.bad(R, f, c, f'`{etxt}.__class__.{c.func.attr}(...)` rebuilds the index without `name=`: the derived index loses the name of `{etxt}`', key=key)
+                continue
+            ntxt = norm(nm)
+            # the name of E itself, or a `name` parameter of a renaming method
+            if ntxt in (f'{etxt}._name', f'{etxt}.name') or (isinstance(nm, ast.Name) and nm.id in f.params):
+                ctx.ok(R, f, c, f'name={ntxt}', key=key)
+            else:
+                ctx.bad(R, f, c, f'`{etxt}.__class__.{c.func.attr}(...)` passes name={ntxt}, which is not the name of `{etxt}`', key=key)
+    ctx.require(n >= 9, 'index rebuild sites')
